@@ -909,6 +909,11 @@ class Exec:
                 kwargs[k.arg] = self.expr(k.value)
         return self.call(f, args, kwargs, n)
 
+    def e_NamedExpr(self, n):
+        v = self.expr(n.value)
+        self.frame.env[n.target.id] = v
+        return v
+
     def e_ListComp(self, n):
         return self.comprehension(n, "list")
 
